@@ -804,6 +804,20 @@ func (c *Ctx) box(v Val) string {
 func (c *Ctx) unbox(b string, s Sort) string {
 	c.box(Val{T: "", S: s}) // ensure declared
 	un := q("unbox:" + string(s))
+	// peephole: unbox(if_val(mk_Iface k (box t))) = t
+	if strings.HasPrefix(b, "(if_val (mk_Iface ") && strings.HasSuffix(b, ")))") {
+		inner := b[len("(if_val (mk_Iface "):]
+		if sp := strings.Index(inner, " "); sp > 0 {
+			rest := inner[sp+1:]
+			bx := "(" + q("box:"+string(s)) + " "
+			if strings.HasPrefix(rest, bx) {
+				t := rest[len(bx) : len(rest)-3]
+				if balanced(t) {
+					return t
+				}
+			}
+		}
+	}
 	return fmt.Sprintf("(%s %s)", un, b)
 }
 
@@ -821,3 +835,18 @@ func (c *Ctx) implementsPred(iface types.Type) string {
 	return n
 }
 
+
+func balanced(t string) bool {
+	d := 0
+	for _, r := range t {
+		if r == '(' {
+			d++
+		} else if r == ')' {
+			d--
+			if d < 0 {
+				return false
+			}
+		}
+	}
+	return d == 0
+}
